@@ -1,4 +1,4 @@
-"""C20 - derived schemas fit their types (library side only; structural part).
+"""C20 - derived schemas fit their types (structural part; library side here, macro side in c20gen.py).
 
   REGFIRST   find_or_build registers the type's key (the position its node will take) before recursing into the
              type's own append_schema: recursive types terminate and refer to themselves
@@ -8,7 +8,10 @@
              property names (u64, usize -> long)
   SHAPES     Option<T> is the union [null, T] in that order; [u8; N] is fixed(N); Vec<u8>/[u8] is bytes; pointer
              wrappers forward both the schema and the type-lookup key; maps have string keys
-It does NOT decide anything about what the proc-macro generates for arbitrary user types, nor any value-level claim.
+  REGOWNER   find_or_build is the only function that references the type registry (already_built_types)
+  HASHFN     hash_type_id feeds its hasher from the TypeId only and writes finish() of that hasher into the name
+  GEN-*      see c20gen.py (expansion of the derive macro over /verif/corpus)
+It does NOT decide what the proc-macro generates for user types outside the corpus' shapes, nor any value-level claim.
 """
 from ..lib import *
 from ..core import short_loc, op_place, const_int
